@@ -33,7 +33,7 @@ fn resolved(r: &Result<hk::Resolved, (String, String)>) -> Sx {
     }
 }
 
-/// (cf rates ((s p d attr) ...))
+/// (cf rates ((s p d attr) ...)) or (cf rates (...) comma): comma = 1 selects DecimalSeparatorStyle::Comma
 fn ctxspec(x: &Sx) -> Option<hk::CtxSpec> {
     let l = x.as_list()?;
     let cf = l.first()?.as_u64()? == 1;
@@ -44,13 +44,15 @@ fn ctxspec(x: &Sx) -> Option<hk::CtxSpec> {
         custom.push((c.first()?.as_str()?.to_string(), c.get(1)?.as_str()?.to_string(),
                      c.get(2)?.as_str()?.to_string(), c.get(3)?.as_str()?.to_string()));
     }
-    Some(hk::CtxSpec { coulomb_farad: cf, rates, custom_units: custom })
+    let comma = l.get(3).and_then(Sx::as_u64) == Some(1);
+    Some(hk::CtxSpec { coulomb_farad: cf, rates, custom_units: custom, comma })
 }
 
 /// the same context, built through the public API only (for L2 `eval`)
 fn public_context(spec: &hk::CtxSpec) -> fend_core::Context {
     let mut ctx = fend_core::Context::new();
     if spec.coulomb_farad { ctx.use_coulomb_and_farad(); }
+    if spec.comma { ctx.set_decimal_separator_style(fend_core::DecimalSeparatorStyle::Comma); }
     match spec.rates {
         hk::Rates::Absent => {}
         hk::Rates::Fake => ctx.set_exchange_rate_handler_v1(
